@@ -403,7 +403,18 @@ def _lam_ret(ctx: Ctx, q: str):
     f = ctx.func(PB, q)
     c = canon_function(f, ctx.model)
     if len(c) != 1 or c[0][0] != "ret":
-        raise AnalysisError(f"{q}: not a single-return helper")
+        # the value written as guards ('if c: return a' ; 'return b') is the conditional value
+        from framelint.peval import value_expr
+        from framelint.canon import deref as _deref, single_defs as _sd
+        v = value_expr(_deref(c, _sd(c)))
+        if v is None:
+            raise AnalysisError(f"{q}: not a single-return helper")
+        # (a, b) if c else (a', b')  is  (a if c else a', b if c else b')
+        if v[0] == "ite" and len(v) == 4 and all(isinstance(arm, tuple) and arm[:1] == ("tuple",) and len(arm) == 2 for arm in v[2:4]) \
+                and len(v[2][1]) == len(v[3][1]):
+            from framelint.canon import mk_ite
+            v = ("tuple", tuple(mk_ite(v[1], a_, b_) for a_, b_ in zip(v[2][1], v[3][1])))
+        return f, v
     return f, c[0][1]
 
 
